@@ -3385,7 +3385,8 @@ class TLSConnection(TLSRecordLayer):
                             serverHello.cipher_suite,
                             bytearray(b''),  # no SRP
                             client_cert_chain,
-                            serverCertChain,
+                            # with PSK no certificate is sent to the client
+                            serverCertChain if selected_psk is None else None,
                             None,
                             False,
                             server_name,
